@@ -232,9 +232,12 @@ MAKE = {
     "Output__clear_data": lambda f: fm.Output(name="o", time=EPOCH, grid=fm.NoGrid()),
     "Output_get_data": lambda f: fm.Output(name="o", static=bool(f.get("is_static")), time=None if f.get("is_static") else EPOCH, grid=fm.NoGrid()),
     "Input_pull_data": lambda f: _mk_input(bool(f.get("is_static"))),
+    "Output_push_data": lambda f: fm.Output(name="o", time=EPOCH, grid=fm.NoGrid()),
+    "TimeCachingAdapter__source_updated": lambda f: ad.NextTime(),
+    "TimeIntegrationAdapter__source_updated": lambda f: ad.AvgOverTime(),
     "interpolate": None, "interpolate_step": None, "check_time": None,
 }
-FIELD_ATTR = {"is_static": None}   # read-only properties: set through the constructor
+FIELD_ATTR = {"is_static": None, "has_targets": None}   # read-only properties: set through the constructor
 
 
 def call_real(spec, fields, params, extra):
@@ -263,12 +266,23 @@ def call_real(spec, fields, params, extra):
                 setattr(obj, k, to_py(ft[k], v))
             if "src_data" in extra:
                 obj._source = _Src(float(extra["src_data"]))
+            if "pulled" in extra:
+                # `_source_updated` pulls from upstream at the notification: the pulled value is the parameter
+                import numpy as np
+                obj._input_info = fm.Info(time=EPOCH, grid=fm.NoGrid(), units="")
+                obj.pull_data = lambda time, target=None, _v=float(extra["pulled"]): fm.UNITS.Quantity(np.array([_v]), "")
+            if "prepared" in extra:
+                # `Output.push_data`: the payload is what `tools.prepare` makes of the pushed value
+                obj._output_info = fm.Info(time=EPOCH, grid=fm.NoGrid(), units="")
+                obj._connected_inputs = {k: v for k, v in obj._connected_inputs.items()}
+                obj.notify_targets = lambda time: None
+                obj._targets = [object()] if fields.get("has_targets") else []
             meth = getattr(obj, spec["qual"].split(".")[-1])
             import inspect
             args = []
             for a in inspect.signature(meth).parameters:
                 if a in spec.get("ignore_params", []):
-                    args.append(None)
+                    args.append(float(extra["prepared"]) if (a == "data" and "prepared" in extra) else None)
                 else:
                     args.append(to_py(pt[a], params[a]))
             r = meth(*args)
